@@ -1,5 +1,5 @@
 SPECIFICATION TraceSpec
 CONSTANTS
   ModelChecks = TRUE
-  TolerateOps = {}
+  TolerateOps = {"RENAME", "LMOVE", "MSETNX"}
 CHECK_DEADLOCK FALSE
